@@ -36,6 +36,11 @@ CLAIMED = {
    note="Trusted: direct evaluator + generator sim/models/host_ref.py (programs read only definitely-defined values; body-local qubits consumed in the body; register futures used as operands only inside their flush segment), trace memory, SimConnection. Vanilla flavour, generic hardware, Z-basis measurement.",
    technique="deterministic simulation: scheduler-owned outcomes and flush placement + differential against a direct evaluator",
    ref="§5 C05"),
+ "C14": dict(
+   text="Seeded exploration of long histories: one connection, 40-400 completed SDK operations of every kind (nesting <=3) with a flush after every k-th; every operation must compile; a monitor on the builder's register pool requires the active set to be empty between operations and a leaked register is confirmed by repeating the operation until compilation actually fails (reported with the allocating call site); the C05 differential oracle runs at every flush to catch temporaries overwriting live registers.",
+   note="Trusted: pool monitor (instance-level wrapper recording call sites), generator/evaluator of C05. Programs hold no user-level register handles; C05's recorded finding shapes are excluded.",
+   technique="deterministic simulation: seeded long operation histories with drawn flush period + register-pool monitor with confirm-by-repetition",
+   ref="§5 C14"),
 }
 
 PENDING = {p: 'check not built yet in this round (simulation target per DESIGN §5; will be claimed when its rig exists)' for p in ['C05','C06','C08','C09','C10','C11','C12','C13','C14','C18','C20']}
